@@ -104,6 +104,9 @@ pub fn c19_six() {
     let w = sym::u32();
     let k = sym::u8() as usize;
     sym::assume(k < 6);
+    let mut sib = Seven::from([a[0], a[1], a[2], a[3], a[4], a[5], w]);
+    sib.set_seventh(w);
+    sib.set_sixth(w);
     let mut t = Six::from(a);
     check!(same(t.to_arr(), a), "Six: from array");
     check!(t.first() == a[0] && t.second() == a[1] && t.third() == a[2] && t.forth() == a[3] && t.fifth() == a[4] && t.sixth() == a[5], "Six: readers");
@@ -142,6 +145,10 @@ pub fn c19_seven() {
     let w = sym::u32();
     let k = sym::u8() as usize;
     sym::assume(k < 7);
+    // priming: a tail write on the sibling container type first (shared lazily filled state would show)
+    let mut sib = Six::from([a[0], a[1], a[2], a[3], a[4], a[5]]);
+    sib.set_sixth(w);
+    sib.set_first(w);
     let mut t = Seven::from(a);
     check!(same(t.to_arr(), a), "Seven: from array");
     check!(t.first() == a[0] && t.second() == a[1] && t.third() == a[2] && t.forth() == a[3] && t.fifth() == a[4] && t.sixth() == a[5] && t.seventh() == a[6], "Seven: readers");
